@@ -4,8 +4,9 @@
     and to K5 (refuted below: a stale value at a player state that never reaches a final state) and is
     covered by the oracle part of the check. *)
 From Coq Require Import String List Arith Bool.
-From Coq Require Import QArith.
-From CR Require Import Model.Num Model.Outcome Model.Graph Model.Game Proofs.GameP Proofs.RewStepP Proofs.PipelineP Proofs.C14Q.
+From Coq Require Import QArith Qabs.
+From CR Require Import Model.Num Model.Outcome Model.Graph Model.Game Proofs.GameP Proofs.RewStepP Proofs.PipelineP Proofs.C14Q
+     Proofs.ReachQ Proofs.RewQ Proofs.RewQ2 Proofs.RewResQ Proofs.RewQ3 Proofs.DiagResQ Props.C14D.
 Import ListNotations.
 
 (* Player 1: expected reward, reward diagnostic and probability diagnostic all follow ONE successor,
@@ -61,8 +62,40 @@ Theorem C14_stale_diagnostic_refuted :
     nth 1 (r_probs r) 1%Q = 0%Q.
 Proof. destruct k5_stale as (r & H). exists k5_game, r. split; [exact k5_wf|exact H]. Qed.
 
+(* RESIDUAL form of the end-to-end claim (exact rationals; statements and the meaning of res_at spelled out in
+   Props/C14D.v): for every well-formed game whose probabilistic transitions carry positive probabilities summing
+   to at most 1, both modes, when solve returns, at EVERY state the reported expected reward and the two diagnostics
+   satisfy the equations of one reward step on the conditioned rows, measured in the reported vectors, up to the
+   threshold 10^-6: emptied state - exactly zeros; probabilistic - the three weighted sums; Player 1 - ONE successor
+   explains all three; Player 2 - one successor explains expected reward and probability diagnostic, and the reward
+   diagnostic is reward + the minimum over the reported reachability strategy. (Equality with the induced chain's
+   true values does not follow: K1, K5.) The check evaluates exactly this predicate on the implementation's output. *)
+Theorem C14_diagnostics_consistent : forall fuel (g : game (T:=Q)) prune r,
+  wf_game qops g -> num_wf1 g -> solve_fuel qops fuel g prune = Ok r ->
+  forall s, s < nstates g ->
+    res_at (nth s (g_players g) PR) (nth s (g_rewards g) 0%Q) (nth s (r_pruned r) [])
+           (fun i => nth i (r_probs r) 0%Q)
+           (fun i => nth i (r_rewards r) 0%Q) (fun i => nth i (r_rew_min_reach r) 0%Q) (fun i => nth i (r_prob_min_rew r) 0%Q)
+           q_thr s.
+Proof. exact C14D_solve_residual. Qed.
+
+(* Player 1, spelled out: one transition of the conditioned row is followed by all three reported quantities *)
+Theorem C14_player1_follows_one_successor : forall fuel (g : game (T:=Q)) prune r,
+  wf_game qops g -> num_wf1 g -> solve_fuel qops fuel g prune = Ok r ->
+  forall s, s < nstates g ->
+  let row := nth s (r_pruned r) [] in let rw := nth s (g_rewards g) 0%Q in
+  let x := fun i => nth i (r_rewards r) 0%Q in
+  let y := fun i => nth i (r_rew_min_reach r) 0%Q in
+  let z := fun i => nth i (r_prob_min_rew r) 0%Q in
+  nth s (g_players g) PR = P1 -> row <> [] ->
+  exists t, In t row /\
+    (Qabs (rw + x (dst t) - x s) <= q_thr)%Q /\ (Qabs (rw + y (dst t) - y s) <= q_thr)%Q /\ (Qabs (z (dst t) - z s) <= q_thr)%Q.
+Proof. exact C14D_player1. Qed.
+
 Print Assumptions C14_step_player1.
 Print Assumptions C14_step_player2.
 Print Assumptions C14_step_probabilistic.
 Print Assumptions C14_seeded_from_reachability.
 Print Assumptions C14_stale_diagnostic_refuted.
+Print Assumptions C14_diagnostics_consistent.
+Print Assumptions C14_player1_follows_one_successor.
